@@ -50,6 +50,8 @@ class Subject:
             self.ast = gen.arch_deadend(gen.Ctx(rng, small=small, form=form), families, mean_units)
         elif arch == "twinends":
             self.ast = gen.arch_twinends(gen.Ctx(rng, small=small, form=form), families, mean_units)
+        elif arch == "listblock":
+            self.ast = gen.arch_listblock(gen.Ctx(rng, small=small, form=form), families, mean_units)
         elif arch == "hostile_h":
             self.ast = gen.arch_hostile_h(gen.Ctx(rng, small=True, form=form), families, mean_units)
         else:
